@@ -50,6 +50,8 @@ func RunHistory(t *rapid.T, prof *Profile, mons ...Monitor) {
 			w.Flags["legacy-genesis-batches"] = true
 		} else if strings.HasPrefix(n, "basket-lists-class-of-other-credit-type{") {
 			w.Flags["genesis-basket-lists-class-of-other-credit-type"] = true
+		} else if n == "fee-pool-funded-at-genesis" {
+			w.Flags["fee-pool-funded-at-genesis"] = true
 		} else if strings.HasPrefix(n, "data-genesis{") {
 			w.Flags["data-genesis"] = true
 		} else if strings.HasPrefix(n, "legacy-exponent-basket{") {
